@@ -24,7 +24,8 @@ from concurrent.futures import ThreadPoolExecutor
 ROOT = os.path.dirname(os.path.dirname(os.path.abspath(__file__)))
 REPO = os.path.abspath(os.environ.get("VERIF_REPO") or "/repo")
 BUILD = os.path.join(ROOT, ".build")
-LEAN = os.environ.get("VERIF_LEAN") or os.path.join(ROOT, "lean")   # scratch copy while developing
+LEAN_SRC = os.path.join(ROOT, "lean")
+LEAN = os.environ.get("VERIF_LEAN") or LEAN_SRC   # scratch copy while developing
 HARNESS_SRC = os.path.join(ROOT, "harness")
 if REPO == "/repo":
     HARNESS = HARNESS_SRC
@@ -37,6 +38,11 @@ else:
     HARNESS = os.path.join(BUILD, "harness-" + _h)
     TARGET = os.path.join(BUILD, "target-" + _h)
     EVIDENCE = os.path.join(BUILD, "evidence-" + _h)
+    if not os.environ.get("VERIF_LEAN"):
+        # translators write Gen/*.lean from the mutated sources: never into the shared project
+        LEAN = os.path.join(BUILD, "lean-" + _h)
+        if not os.path.isdir(LEAN):
+            shutil.copytree(LEAN_SRC, LEAN, symlinks=True)
 BIN = os.path.join(TARGET, "debug")
 BRUSH = os.path.join(BIN, "brush")
 DRV = os.path.join(LEAN, ".lake", "build", "bin", "drv")
@@ -194,10 +200,30 @@ def audit_axioms(prop):
     return res, out
 
 
+_DRV_COPY = None
+import threading
+_DRV_LOCK = threading.Lock()
+
+
+def drv_path():
+    """A private copy of the driver for this process (lake relinks `drv` in place; a concurrent check
+    could otherwise hit the moment when the file is missing)."""
+    global _DRV_COPY
+    with _DRV_LOCK:
+        if _DRV_COPY is None or not os.path.exists(_DRV_COPY):
+            dst = os.path.join(BUILD, "drv-%d-%d" % (os.getpid(), int(time.time() * 1000) % 1000000))
+            with flock("lake"):
+                shutil.copy2(DRV, dst)
+            _DRV_COPY = dst
+            import atexit
+            atexit.register(lambda d=dst: os.path.exists(d) and os.remove(d))
+        return _DRV_COPY
+
+
 def run_drv(lines, timeout=1800):
     """Feed request lines to the compiled Lean driver; returns the list of response lines."""
     data = ("\n".join(lines) + "\n").encode("utf-8")
-    p = subprocess.run([DRV], input=data, stdout=subprocess.PIPE, stderr=subprocess.PIPE, timeout=timeout)
+    p = subprocess.run([drv_path()], input=data, stdout=subprocess.PIPE, stderr=subprocess.PIPE, timeout=timeout)
     if p.returncode != 0:
         raise RuntimeError("drv failed rc=%d: %s" % (p.returncode, p.stderr.decode("utf-8", "replace")[:2000]))
     out = p.stdout.decode("utf-8").split("\n")
@@ -385,6 +411,8 @@ class Ctx:
             except Exception as ex:  # translator could not find / parse its item
                 self.obligations.append(("translator:%s" % getattr(g, "__name__", "gen"), False, str(ex)[:500]))
                 self.broken.append("translator:%s: %s" % (getattr(g, "__name__", "gen"), str(ex)[:300]))
+        global _DRV_COPY
+        _DRV_COPY = None
         ok, out = lake_build(["BrushVerif.Props.%s" % prop, "drv"] + list(extra_targets))
         self.lake_log = out
         names = theorem_names(prop)
